@@ -10,8 +10,14 @@
   `_partial` versions carrying the explicit hypothesis `¬ EastOnSeam w e`; nothing else is missing.
 -/
 import VerdeModel.Lemmas.Mod
+import VerdeModel.Gen.Coords
 namespace Verde.C17
 open Verde
+
+/-- Bridge: the region arithmetic of `longitude_continuity` as regenerated from /repo's source text equals the model's. -/
+theorem gen_lon_region_eq_model (w e s n : Rat) : Gen.lonRegion w e s n = lonRegion w e := by
+  unfold Gen.lonRegion lonRegion
+  cases h : allclose1 (ratAbs (e - w)) 360 <;> simp <;> split_ifs <;> simp_all
 
 def Congr360 (x y : Rat) : Prop := ∃ k : Int, x = y + 360 * (k : Rat)
 
